@@ -36,6 +36,7 @@ type vp9FrameJ struct {
 }
 
 type c12Case struct {
+	Huge     int             `json:"huge"`
 	Kind     string          `json:"kind"`
 	Bytes    []int           `json:"bytes"`
 	Dlen     int             `json:"dlen"`
@@ -155,6 +156,8 @@ func runC12(raw json.RawMessage, w *Writer) {
 	}
 	w.Emit(Ev{"ev": "reset", "class": c.Class})
 	switch c.Kind {
+	case "huge":
+		w.Emit(hugeVP9(c.Huge, c.Mtu, c.Flexible))
 	case "decode":
 		b := bytesOf(c.Bytes)
 		d := vp9Decode(b)
